@@ -63,6 +63,24 @@ Theorem C06_stepwise_ops_are_translated (N : Num) (steps : nat) (p_lo p_hi : N) 
   gen_pimp N steps p_lo p_hi p q = pimp N steps p_lo p_hi p q.
 Proof. exact (gen_stepwise_ops_are_model N steps p_lo p_hi p q f g c). Qed.
 
+(* P ** c with a real exponent, as recognised in the source (Staircase.pow): a negative exponent on a support containing zero is an error like
+   the reciprocal, for any power function and whatever the zero-straddling route does; a value is only returned outside that case; and the
+   translated routing is the model's *)
+Theorem C06_negative_power_of_zero_support_raises steps plo phi (powf : R -> R -> R) route0 (p : list R * list R) (c : R) :
+  c < 0 -> nth 0 (fst p) 0 <= 0 <= last (snd p) 0 -> ppow RN steps plo phi powf route0 p c = Raise ZeroDivision.
+Proof. exact (ppow_zero steps plo phi powf route0 p c). Qed.
+Theorem C06_power_value_only_off_the_pole steps plo phi (powf : R -> R -> R) route0 (p : list R * list R) (c : R) r :
+  ppow RN steps plo phi powf route0 p c = Ok r -> 0 <= c \/ 0 < nth 0 (fst p) 0 \/ last (snd p) 0 < 0.
+Proof. exact (ppow_ok_guard steps plo phi powf route0 p c r). Qed.
+Theorem C06_power_is_translated (N : Num) (steps : nat) (p_lo p_hi : N) (powf : N -> N -> N) (route0 : pbox N -> N -> res (pbox N)) (p : pbox N) (c : N) :
+  gen_ppow N steps p_lo p_hi powf route0 p c = ppow N steps p_lo p_hi powf route0 p c.
+Proof. exact (gen_power_is_model N steps p_lo p_hi powf route0 p c). Qed.
+Example C06_power_ex : ppow RN 2 0 1 (fun x _ => x) (fun p _ => Ok p) ([0; 1], [0; 1]) (-1) = Raise ZeroDivision.
+Proof. apply C06_negative_power_of_zero_support_raises; cbn; lra. Qed.
+Print Assumptions C06_negative_power_of_zero_support_raises.
+Print Assumptions C06_power_value_only_off_the_pole.
+Print Assumptions C06_power_is_translated.
+
 Print Assumptions C06_number_increasing.
 Print Assumptions C06_number_decreasing.
 Print Assumptions C06_neg_involutive.
